@@ -31,7 +31,7 @@ REQUIRED_STRATA = {"recompute": 200, "early-probe": 100, "static": 1500, "histor
 
 DICT = ["a", "b", "A", "Total $", "total", "x y", "x_y", "x  y", "1st", "007", "", None, "sum", "max", "cols", "T", "name", "copy", "schema", "shape", "join", "fillna",
 	"a__1", "col3_", "col__1", "c1x", "col0_", "col1_", "_a", "a_", "__", "é", "Ünï cödé", "class", "a.b", "a-b", "a__b", "sort_by", "dtype", " a ", "a___1", "total _ 1", "rate_(_2)", "a____7", "x_ _2", "b__10_",
-	"ma\u017fs", "mass", "\u017f", "\u0131d", "\u0130x", "id", "\u212a", "stra\u00dfe", "\ufb01n", "\u00aa"]      # letters whose case fold / compatibility form is ASCII: still "other characters"
+	"ma\u017fs", "mass", "\u017f", "\u0131d", "\u0130x", "id", "\u212a", "stra\u00dfe", "\ufb01n", "\u00aa", "release__1_0", "Build__2_1", "v__1_0", "a__1_0", "a__1e3", "x__0x1", "n__١"]      # letters whose case fold / compatibility form is ASCII: still "other characters"
 
 _BASE = None
 _PUBLIC = None
@@ -250,7 +250,8 @@ def run_history(chk, spec):
 		return
 	trace = []
 	for step in range(spec["nsteps"]):
-		op = rng.choice(["rename_column", "rename_columns", "view-rename", "attr-replace", "rshift", "dir", "repr", "view-rename-then-dir", "row-then-rename", "select"])
+		op = rng.choice(["rename_column", "rename_columns", "view-rename", "attr-replace", "rshift", "dir", "repr", "view-rename-then-dir", "row-then-rename", "select",
+			"view-rename-then-read", "alias-then-read", "rename-to-later-name", "rshift-own-column"])
 		ncols = len(names)
 		i = rng.randrange(ncols)
 		new = rng.choice(DICT)
@@ -278,6 +279,45 @@ def run_history(chk, spec):
 				names[i] = new
 			if op == "view-rename-then-dir":
 				call(dir, t)
+		elif op in ("view-rename-then-read", "alias-then-read"):
+			# a rename through the column vector, then ONE read-only table operation before anything else looks at the table
+			col = t.cols()[i]
+			o = call(setattr, col, "name", new) if op == "view-rename-then-read" else call(col.alias, new)
+			if o.ok:
+				names[i] = new
+			rd = rng.choice(["peek", "peek-args", "shape", "len", "column_names", "T", "copy", "row", "iter", "fingerprint", "schema-list", "sort_by", "head-slice"])
+			call({"peek": lambda: t.peek(), "peek-args": lambda: t.peek(2), "shape": lambda: t.shape, "len": lambda: len(t), "column_names": lambda: t.column_names(), "T": lambda: t.T, "copy": lambda: t.copy(),
+				"row": lambda: t[0], "iter": lambda: [tuple(r) for r in t], "fingerprint": lambda: t.fingerprint(), "schema-list": lambda: [c.schema() for c in t.cols()], "sort_by": lambda: t.sort_by(t.cols()[0]),
+				"head-slice": lambda: t[0:1]}[rd])
+			op = f"{op}:{rd}"
+		elif op == "rename-to-later-name":
+			# an earlier column takes the (plain) name of a later one: the plain name now means the earlier column, for every lookup path, at once
+			later = [j for j in range(i + 1, ncols) if isinstance(names[j], str) and isinstance(model_sanitise(names[j]), str) and name_class(names[j]) == "plain" and names.index(names[j]) == j
+				and model_sanitise(names[j]) not in base_dir()[1] and [model_sanitise(x) for x in names].count(model_sanitise(names[j])) == 1]
+			if not later:
+				continue
+			j = rng.choice(later)
+			target_name = names[j]
+			col = t.cols()[i]
+			o = call(setattr, col, "name", target_name) if rng.random() < 0.6 else call(col.alias, target_name)
+			if not o.ok:
+				continue
+			names[i] = target_name
+			first = call(getattr, t, model_sanitise(target_name))
+			chk.judged("history-step", ("hist", "rename-to-later-name-probe", min(ncols, 11), name_class(target_name)))
+			if first.ok and first.value is not t.cols()[i]:
+				where = next((k for k, c in enumerate(t.cols()) if c is first.value), None)
+				chk.fail("a plain repeated name resolves to its first occurrence (attribute access right after the rename)", "accessor/repeated-name-resolves-to-later-column/first-access-after-rename/getattr",
+					f"{spec!r}: column {i} renamed to {target_name!r} (also the name of column {j}); t.{model_sanitise(target_name)} is column {where}; trace {trace[-5:]}")
+				return
+		elif op == "rshift-own-column":
+			# t >> {new name: one of t's own live columns}: t keeps its stored names
+			if ncols >= 12 or new in ("",):
+				continue
+			o = call(lambda: t >> {new: t.cols()[i]})
+			if t.column_names() != names:
+				chk.fail("stored names are never altered by building another table", "accessor/stored-names-changed/rshift-own-column", f"{spec!r}: t >> {{{new!r}: t.cols()[{i}]}} changed t's names to {t.column_names()!r} (were {names!r})")
+				return
 		elif op == "row-then-rename":
 			row = call(lambda: t[0])
 			col = t.cols()[i]
@@ -408,7 +448,7 @@ def run(chk):
 			i, j = rng.sample(range(k), 2)
 			names[j] = names[i]
 		chk.case("static", {"names": names, "pre": rng.choice([None, "dir", "repr"]), "nrows": rng.choice([1, 2, 3])}, "static-wide")
-	for _ in range(250 if chk.quick() else 2000):
+	for _ in range(420 if chk.quick() else 3000):
 		k = rng.choice([1, 2, 3, 4, 6])
 		names = [rng.choice(DICT) for _ in range(k)]
 		chk.case("history", {"names": names, "seed": rng.randrange(10**9), "nsteps": rng.choice([4, 8]) if chk.quick() else rng.choice([4, 8, 16])}, "history")
